@@ -272,9 +272,9 @@ def run_pipeline(tier, ev, col):
     for tag, rf in jobs:
         r = V.tlc(os.path.join(SP, 'VpscRecs.tla'), os.path.join(SP, 'VpscRecs.cfg'), env={'VPSCRECS': rf}, timeout=3000, cont=True, mem='16g')
         ev.add_tlc('records %s' % tag, r)
-        for m in re.finditer(r'<<"STAT", "recs", (\d+), (\d+), (\d+)>>', r.out):
-            nontriv += int(m.group(2))
-            nruns += int(m.group(3))
+        for v in V.stat(r.out, 'recs'):
+            nontriv += v[0]
+            nruns += v[1]
         recs = None
         for inv, st in V.violating_states(r):
             if recs is None:
